@@ -46,6 +46,155 @@ def manual_model(xr, init):
     return m
 
 
+# ---------------------------------------------------------------------------------------------------------------------
+# (c) WHY the trees split.  The statement speaks of every fit "with temperature tuning": whatever made the trees split
+#     (training set larger than a leaf, a requested number of splits on data that fits into one leaf, both, tree
+#     iterations, several trees, a refit of the same object), the returned model must sit at an optimal candidate and
+#     the records must be the true scores.  The oracle below never reads the library's bookkeeping to decide whether
+#     tuning "should" have run: it looks at the fitted trees (is there a split node?) and at the configuration
+#     (use_temperature_tuning), puts the model at every candidate through the public attribute and recomputes the
+#     validation metric in float64 from predict / predict_proba.
+# ---------------------------------------------------------------------------------------------------------------------
+MINIMISED = {'mse': True, 'mae': True, 'brier': True, 'accuracy': False}      # textbook directions of the metrics recomputed here
+
+# (label, max_leaf_size as a function of n_train, number_of_splits); enumerated by index, independent of the seed
+SPLIT_REASONS = [
+    ('forced: n < default max_leaf_size, 1 split requested',    lambda n: None,        1),
+    ('forced: n < max_leaf_size, 2 splits requested',           lambda n: n + 37,      2),
+    ('forced: n == max_leaf_size, 1 split requested',           lambda n: n,           1),
+    ('forced: n == max_leaf_size, 3 splits requested',          lambda n: n,           3),
+    ('size: n == max_leaf_size + 1, no number of splits',       lambda n: n - 1,       None),
+    ('size+forced: n == max_leaf_size + 1, 2 splits requested', lambda n: n - 1,       2),
+    ('size: n > 2 max_leaf_size, no number of splits',          lambda n: n // 2 - 9,  None),
+    ('size+forced: n > max_leaf_size, 1 split requested',       lambda n: n // 2 + 5,  1),
+    ('size: n > max_leaf_size, 0 splits requested',             lambda n: n // 2 + 5,  0),
+    ('control (single leaf): n == max_leaf_size, no number of splits', lambda n: n,    None),
+    ('control (single leaf): n < max_leaf_size, 0 splits requested',   lambda n: n + 1, 0),
+]
+TUNING_SPACES = [[0.0, 0.05, 0.3, 1.0, 3.0], [2.0, 0.2, 0.0], [0.4, 0.0, 0.1, 1.5], [0.6, 0.15, 2.5], None, [1.0, 0.0]]   # None = the library default
+
+
+def count_leaves(node):
+    return 1 if node['type'] == 'leaf' else count_leaves(node['left']) + count_leaves(node['right'])
+
+
+def validation_score(xr, model, task, metric, Xv, yv, attr):
+    """the validation score of `model` with split_temperature = attr (None = hard routing), float64, textbook definitions"""
+    model.split_temperature = attr
+    with xr.quiet():
+        if task == 'reg':
+            pred = np.asarray(model.predict(torch.tensor(Xv)), dtype=np.float64).reshape(len(Xv), -1)
+            t = np.asarray(yv, dtype=np.float64).reshape(len(Xv), -1)
+            return float(np.mean((pred - t) ** 2)) if metric == 'mse' else float(np.mean(np.abs(pred - t)))
+        P = np.asarray(model.predict_proba(torch.tensor(Xv)), dtype=np.float64)
+    if metric == 'accuracy':
+        return float(np.mean(P.argmax(1) == yv))
+    if metric == 'brier':
+        return float(np.mean((np.eye(P.shape[1])[yv] - P) ** 2))
+    raise ValueError(metric)
+
+
+def judge_tuned_fit(ck, xr, model, task, metric, Xv, yv, cands, desc):
+    """oracle of the statement on a fitted model whose trees split and whose tuning is enabled; cands = the configured candidate list"""
+    mini = MINIMISED[metric]
+    stored = model.split_temperature
+    attr_of = lambda c: None if float(c) <= 0 else float(c)
+    tol = lambda v: 1e-5 * (1 + abs(v))
+    worse = (lambda a, b: a > b + tol(b)) if mini else (lambda a, b: a < b - tol(b))
+    ret = validation_score(xr, model, task, metric, Xv, yv, stored)
+    scores = [validation_score(xr, model, task, metric, Xv, yv, attr_of(c)) for c in cands]
+    model.split_temperature = stored
+    opt = (min if mini else max)(scores)
+    shown = {str(float(c)): round(s, 7) for c, s in zip(cands, scores)}
+    for c, s in zip(cands, scores):
+        ck.case(dict(desc, cand=float(c), recomputed=s))
+    brief = ', '.join(f'{k}={desc[k]}' for k in ('j', 'i', 'n_train', 'max_leaf_size', 'number_of_splits', 'leaves_per_tree', 'metric', 'temp_tuning_space', 'configured_split_temperature',
+                                                 'n_trees', 'n_tree_iters', 'refit_of_same_object', 'time_limit_s', 'n', 'L', 'space', 'data_seed', 'seed') if k in desc)
+    probs = []
+    if not any((attr_of(c) is None and stored is None) or (attr_of(c) is not None and stored is not None and attr_of(c) == float(stored)) for c in cands):
+        probs.append(('not-a-candidate', f'the stored split temperature {stored} is not one of the candidates {[float(c) for c in cands]}'))
+    if worse(ret, opt):
+        probs.append(('not-optimal', f'the returned model (temperature {stored}) scores {metric}={ret:.7g} on the validation set but candidate '
+                                     f'{float(cands[scores.index(opt)])} scores {opt:.7g}'))
+    if any(float(c) <= 0 for c in cands):
+        hard = scores[[float(c) <= 0 for c in cands].index(True)]
+        if worse(ret, hard):
+            probs.append(('worse-than-hard', f'the returned model (temperature {stored}, {metric}={ret:.7g}) is worse than hard routing ({hard:.7g}) although 0 is a candidate'))
+    rec_best = getattr(model, 'best_split_temperature_score_', None)
+    recs = getattr(model, 'temperature_tuning_results_', None)
+    if rec_best is None:
+        probs.append(('no-best-recorded', f'no best score was recorded (the returned model scores {ret:.7g})'))
+    elif abs(float(rec_best) - ret) > tol(ret):
+        probs.append(('best-mismatch', f'the recorded best score {float(rec_best):.7g} is not the validation score {ret:.7g} of the model as returned (temperature {stored})'))
+    if recs is None:
+        probs.append(('no-results-recorded', 'no per-candidate results were recorded'))
+    else:
+        recs = [(float(a), float(b)) for a, b in recs]
+        if [a for a, _ in recs] != [float(c) for c in cands] or any(abs(b - s) > tol(s) for (_, b), s in zip(recs, scores)):
+            probs.append(('results-mismatch', f'the recorded per-candidate results {[(a, round(b, 6)) for a, b in recs][:6]} are not the candidates\' true scores {list(shown.values())[:6]}'))
+    for tag, p_ in probs:
+        ck.violation(f'{p_}; fit: {brief}', dict(desc, stored=stored, returned_score=ret, candidate_scores=shown, recorded_best=None if rec_best is None else float(rec_best),
+                                               recorded_results=recs, problem=tag),
+                     key=json.dumps(dict(site='split-reason', what=tag, metric=metric)))
+    return probs
+
+
+def split_reason_fits(ck, xr):
+    nfits = ck.n(2, 4) * len(SPLIT_REASONS)
+    for j in range(nfits):
+        label, leaf_of, nsplits = SPLIT_REASONS[j % len(SPLIT_REASONS)]
+        rnd = j // len(SPLIT_REASONS)
+        task, metric = [('reg', 'mse'), ('class', 'brier'), ('reg', 'mae'), ('class', 'accuracy')][(j + rnd) % 4]
+        space = TUNING_SPACES[(j + 2 * rnd) % len(TUNING_SPACES)]
+        cands = [float(c) for c in (xr.xmod.DEFAULT_TEMP_TUNING_SPACE if space is None else space)]
+        positive = [c for c in cands if c > 0]
+        configured = [None, 4.0, positive[-1], None, 0.03][(j // 2 + rnd) % 5]       # None / not a candidate / a candidate / tiny, not a candidate
+        n_trees = 2 if j % 5 == 3 else 1
+        n_tree_iters = 1 if j % 7 == 4 else 0
+        refit = (j % 6 == 2)                          # the same object was fitted (and tuned) before on a training set larger than a leaf
+        ds = 771000 + 131 * j + ck.seed
+        nr = np.random.default_rng(ds)
+        n = int(nr.integers(160, 280)); d = 3
+        K = 2 + (j // 4) % 2
+        Xa = xr.make_X('random', n + 90, d, nr); ya = xr.make_y(task, Xa, nr, n_classes=K)      # one target function; the last 90 rows validate
+        X, y, Xv, yv = Xa[:n], ya[:n], Xa[n:], ya[n:]
+        L = leaf_of(n)
+        kw = dict(rfm_params=xr.default_rfm_params(iters=1, reg=1e-2), verbose=False, tuning_metric=metric, n_trees=n_trees, n_tree_iters=n_tree_iters)
+        if L is not None: kw['max_leaf_size'] = L
+        if nsplits is not None: kw['number_of_splits'] = nsplits
+        if space is not None: kw['temp_tuning_space'] = list(space)
+        if configured is not None: kw['split_temperature'] = configured
+        if j % 4 == 1: kw['use_temperature_tuning'] = True       # stated explicitly; otherwise left at its default
+        desc = dict(regime='split-reason', j=j, why=label, task=task, metric=metric, n_train=n, n_val=90, d=d, classes=K if task == 'class' else None,
+                    max_leaf_size=L if L is not None else 'default', number_of_splits=nsplits, temp_tuning_space=space if space is not None else 'default',
+                    configured_split_temperature=configured, n_trees=n_trees, n_tree_iters=n_tree_iters, refit_of_same_object=refit,
+                    data=f"nr=np.random.default_rng({ds}); n=nr.integers(160,280); Xa=xr.make_X('random',n+90,3,nr); ya=xr.make_y('{task}',Xa,nr,{K}); train=first n rows, validation=last 90",
+                    data_seed=ds, torch_seed=5300 + j + ck.seed, seed=ck.seed)
+        xr.seed_all(5300 + j + ck.seed)
+        model = xr.xRFM(**kw)
+        try:
+            with xr.quiet():
+                if refit:
+                    n0 = n + 61           # other, larger data: split by size unless max_leaf_size is the default
+                    X0 = xr.make_X('random', n0, d, nr); y0 = xr.make_y(task, X0, nr, n_classes=K)
+                    model.fit(torch.tensor(X0), torch.tensor(y0), torch.tensor(Xv), torch.tensor(yv))
+                model.fit(torch.tensor(X), torch.tensor(y), torch.tensor(Xv), torch.tensor(yv))
+        except Exception as e:
+            ck.notes.append(f'fit failed {desc}: {e!r}'); ck.count('split-reason fit failed'); continue
+        leaves = [count_leaves(t) for t in model.trees]
+        desc['leaves_per_tree'] = leaves
+        split = any(k > 1 for k in leaves)
+        ck.count(f'split-reason: {label} -> ' + ('split' if split else 'single leaf'))
+        if not split:
+            # nothing routes: every temperature gives the same model; the statement constrains nothing observable
+            ck.case(dict(desc, outcome='single leaf'), nontrivial=False)
+            continue
+        if not model.use_temperature_tuning:
+            continue
+        ck.count(f'split-reason: metric={metric}'); ck.count('split-reason: configured temperature ' + ('None' if configured is None else ('a candidate' if configured in cands else 'not a candidate')))
+        judge_tuned_fit(ck, xr, model, task, metric, Xv, yv, cands, desc)
+
+
 def run(ck):
     from harness import xr
     import xrfm.xrfm as xmod
@@ -53,6 +202,9 @@ def run(ck):
                'process) whose value is a function of the temperature in force: all score tables over a small alphabet x candidate lists '
                '(length 1-5, any order, with/without 0) x initial temperature (None / in list / not in list) x direction; '
                '(b) real fits with tuning: every recorded candidate score and the recorded best score recomputed from predict/predict_proba. '
+               '(c) real fits enumerated by why the trees split (n_train vs max_leaf_size at and around the boundary x number_of_splits None/0/1/2/3 x configured temperature '
+               'None / a candidate / not a candidate x candidate lists x trees x tree iterations x refit): whenever a fitted tree has a split node and tuning is enabled, the stored '
+               'temperature is a candidate, is optimal and not worse than hard routing under scores recomputed at every candidate, and the records exist and are those scores. '
                'non-trivial = >= 2 candidates with >= 2 distinct scores; distinct by hash of the configuration')
     ck.trusted += ['Coq 8.16.1 kernel + vm_compute (PrimFloat)', 'scripted metric object (harness)', 'numpy re-implementation of mse/mae/accuracy/brier']
     ck.assumptions += ['scores finite and not NaN']
@@ -211,7 +363,16 @@ def run(ck):
         except Exception as e:
             ck.notes.append(f'fit failed {desc}: {e!r}'); ck.count('real-fit-failed'); continue
         if not hasattr(model, 'temperature_tuning_results_'):
-            ck.count('real fit without split (no tuning)'); continue
+            nl = [count_leaves(t) for t in model.trees]
+            if any(k > 1 for k in nl):            # the trees split and tuning is enabled (the default): this IS a fit with temperature tuning
+                if metric in MINIMISED:
+                    judge_tuned_fit(ck, xr, model, task, metric, Xv, yv, [float(c) for c in space], dict(desc, leaves_per_tree=nl))
+                else:
+                    ck.violation(f'the trees split (leaves per tree {nl}) and temperature tuning is enabled, but neither per-candidate results nor a best score were recorded on {desc}',
+                                 dict(desc, leaves_per_tree=nl, stored=model.split_temperature), key=json.dumps(dict(site='real-untuned', metric=metric)))
+            else:
+                ck.count('real fit without split (no tuning)')
+            continue
         ck.count(f'real-fit metric={metric}'); ck.count(f'real-fit trees held {len(model.trees)} of {model.n_trees}')
         M = xmod.Metric.from_name(metric)
         stored = model.split_temperature
@@ -251,3 +412,6 @@ def run(ck):
         if abs(ts - opt) > 1e-5 * (1 + abs(opt)):
             ck.violation(f'returned temperature {stored} scores {ts}, best candidate scores {opt} on {desc}', dict(desc, scores={str(a): b for a, b in scores.items()}),
                          key=json.dumps(dict(site='real-opt', metric=metric)))
+
+    # ---- (c) fits enumerated by WHY the trees split (size / requested number of splits / both / tree iterations / refit) ----
+    split_reason_fits(ck, xr)
